@@ -179,7 +179,9 @@ CLAIMED["C15"] = {
             "the strike of the bell expected at blow 0 brings the line back (whatever other humans do first). Tied to "
             "the code by sessions over every leader assignment, delays 0.3..45 s, custom start rows, other humans early; "
             "oracle: first strike at exactly +3 s / nothing before the leader / first row placed from the leader's strike.",
-    "design_ref": "DESIGN.md section 3, C15", "note": TBR,
+    "design_ref": "DESIGN.md section 3, C15", "note": TBR + " A message handler that sleeps runs to completion before the "
+            "simulated main thread resumes (model and harness alike): state raised and lowered again inside one handler is "
+            "not observable (seeded change C15-f, DESIGN.md section 6, is not detected for that reason).",
     "technique": "Coq proof (case analysis of initialise_line / on_bell_ring; loop exit lemma) + correspondence",
 }
 
